@@ -117,7 +117,14 @@ class Ctx:
         self.tier = tier
         self.seed = seed
         self.t0 = time.time()
-        self.work = os.path.join(WORK, prop)
+        # one scratch directory per run (two runs of the same check must not clobber each other);
+        # removed at the end of a run without violations, stale ones are pruned here
+        os.makedirs(WORK, exist_ok=True)
+        for d in os.listdir(WORK):
+            full = os.path.join(WORK, d)
+            if re.match(r"^C\d+\.\d+$", d) and os.path.isdir(full) and time.time() - os.path.getmtime(full) > 6 * 3600:
+                shutil.rmtree(full, ignore_errors=True)
+        self.work = os.path.join(WORK, "%s.%d" % (prop, os.getpid()))
         shutil.rmtree(self.work, ignore_errors=True)
         os.makedirs(self.work, exist_ok=True)
         self.repo = repo_root()
@@ -157,9 +164,11 @@ class Ctx:
         return False
 
     def fail_or_known(self, key, what, replay):
+        """Returns True when the failure is a listed known finding, False when it was reported as a violation."""
         if key and self.known(key, what):
-            return
+            return True
         self.violation(what, replay)
+        return False
 
     def note(self, s):
         self.notes.append(s)
@@ -538,6 +547,8 @@ def finish(ctx):
         json.dump(ev, f, indent=1, default=str)
     for k in ctx.knowns:
         print("KNOWN-FINDING: property=%s %s" % (ctx.prop, k))
+    if not ctx.violations and not os.environ.get("VERIF_KEEP_WORK"):
+        shutil.rmtree(ctx.work, ignore_errors=True)
     if not ctx.violations:
         print("OK property=%s tier=%s obligations=%d/%d evaluations=%d nontrivial=%d wall=%.1fs" % (
             ctx.prop, ctx.tier, n_ok, n_ob, ctx.evaluations, len(ctx.nontrivial), time.time() - ctx.t0))
